@@ -16,6 +16,8 @@
 -/
 import LiteFSVerif.Model.Backup
 import LiteFSVerif.Gen.Facts
+import LiteFSVerif.Gen.Skel
+import LiteFSVerif.Model.ExpectedSkel
 
 namespace LiteFSVerif.C14
 open LiteFSVerif LiteFSVerif.Cks LiteFSVerif.Backup
@@ -155,5 +157,14 @@ theorem C14_hwm_acknowledged (svc svc' : List Hdr) (f : Hdr) (h : svcAccept svc 
 example : syncDecide (some (5, 7)) (2, 3) (fun _ => true) = .upload 3 5 ∧
     syncDecide (some (5, 7)) (2, 3) (fun t => t != 4) = .restore ∧
     syncDecide (some (5, 7)) (9, 3) (fun _ => true) = .restore := by decide
+
+/-- the control skeletons (branch conditions, loop heads, returns, order of calls and of state
+    assignments) of `Store.streamBackupDB`, `Store.restoreDBFromBackup`, regenerated from the current source on every run, are the ones the
+    model was written and validated against (Model/ExpectedSkel.lean): a reordered, dropped or
+    altered check or call in these functions breaks this theorem -/
+theorem C14_source_skeletons :
+    Gen.Skel.Store_streamBackupDB = Expected.Skel.Store_streamBackupDB ∧
+    Gen.Skel.Store_restoreDBFromBackup = Expected.Skel.Store_restoreDBFromBackup :=
+  ⟨rfl, rfl⟩
 
 end LiteFSVerif.C14
